@@ -44,13 +44,19 @@ Compose(g, p) == IF Format THEN Formatted(g, p) ELSE Written(g, p)
 
 StartsWith(s, t) == Len(t) <= Len(s) /\ SubSeq(s, 1, Len(t)) = t
 
+\* what may lie at the destination before the first run: nothing, an empty placeholder file, or a file cut in
+\* the middle of its header (an interrupted write)
+InitialDest == [absent |-> Absent, empty |-> <<>>, cut |-> <<"H:cut">>]
+
 Init ==
   /\ src \in {"g1", "missing"}
   /\ prefix = <<>>
-  /\ dest = Absent
+  /\ \E d \in DOMAIN InitialDest :
+        /\ (src = "missing" => d = "absent")
+        /\ dest = InitialDest[d]
+        /\ h = <<[a |-> "init", g |-> src, d |-> d]>>
   /\ mt = 0
   /\ last = "none"
-  /\ h = <<[a |-> "init", g |-> src]>>
 
 Open == Len(h) <= Depth
 
